@@ -6,6 +6,7 @@ from typing import Dict, Iterable, List, Optional, Set, Tuple, Union
 
 from .ast import (
     BreakStmt,
+    ContinueStmt,
     ButtonDecl,
     ButtonPoll,
     ExprStmt,
@@ -1585,6 +1586,10 @@ def _emit_block(
 
         if isinstance(node, BreakStmt):
             lines.append(f"{indent}break;")
+            continue
+
+        if isinstance(node, ContinueStmt):
+            lines.append(f"{indent}return;" if node.restart_pass else f"{indent}continue;")
             continue
 
         def _ensure_buzzer_tracking(name: str) -> Tuple[str, str, str, str]:
